@@ -6,7 +6,7 @@
    loops are hand models, the per-rule tests and the stages are oracles; the tie is the three-way
    whole-command correspondence of harness/c16.py. *)
 From Coq Require Import String List Bool Arith.
-From Tally Require Import Lib.Str C11.Model C16.Model C16.Proofs.
+From Tally Require Import Lib.Str C11.Model C16.Model C16.Proofs C16.Lookup C16.LookupProofs.
 Import ListNotations.
 Open Scope nat_scope.
 Open Scope list_scope.
@@ -65,6 +65,39 @@ Theorem c16_explain_eq_up_partial :
     explain_desc ev_explain extract_name rules c = up_classify ev_engine ev_legacy extract_name k m rules c.
 Proof. exact explain_desc_partial. Qed.
 Print Assumptions c16_explain_eq_up_partial.
+
+(* ---------------------------------------------------------------- what the query of `tally explain <query>` names *)
+(* C16/Lookup.v models the lookup cascade of cmd_explain.  For every list of merchant names and transactions: *)
+Theorem c16_explain_lookup_exact_name :
+  forall q keys descs, In q keys -> lookup q keys descs = Exact q.
+    (* the exact name of a merchant that up reports is answered with THAT merchant, whatever other names (differing only
+       in letter case, containing it) or descriptions exist *)
+Proof. exact lookup_exact. Qed.
+Print Assumptions c16_explain_lookup_exact_name.
+
+Theorem c16_explain_lookup_routes :
+  forall q keys descs,
+    (forall m, lookup q keys descs = Exact m -> m = q /\ In q keys) /\
+    (forall m, lookup q keys descs = CaseInsens m ->
+       ~ In q keys /\ exists l1 l2, keys = l1 ++ m :: l2 /\ lower m = lower q /\ forall y, In y l1 -> lower y <> lower q) /\
+    (lookup q keys descs = Describe <->
+       (forall m, In m keys -> infixb (lower q) (lower m) = false) /\
+       (forall d, In d descs -> infixb (lower q) (lower (fst d)) = false /\ infixb (lower q) (lower (snd d)) = false)).
+Proof.
+  intros q keys descs. split; [|split].
+  - intros m. apply lookup_exact_only.
+  - intros m. apply lookup_case_insensitive.
+  - apply lookup_describe_iff.
+Qed.
+Print Assumptions c16_explain_lookup_routes.
+
+Definition ex_keys : list string := "Zed Mart" :: "ZED MART" :: "Coffee" :: "Netflix Premium" :: nil.
+Definition ex_descs : list (string * string) := ("Zed Mart", "ZED MART 12") :: ("Coffee", "SQ *COFFEE HUT") :: nil.
+Example c16_lookup_example :
+  lookup "ZED MART" ex_keys ex_descs = Exact "ZED MART" /\ lookup "zed mart" ex_keys ex_descs = CaseInsens "Zed Mart" /\
+  lookup "netflix" ex_keys ex_descs = Partial ("Netflix Premium" :: nil) /\ lookup "coffee hut" ex_keys ex_descs = TxnSearch /\
+  lookup "COFFEE HUT ZQ7" ex_keys ex_descs = Describe.
+Proof. vm_compute. repeat split; reflexivity. Qed.
 
 (* ---------------------------------------------------------------- the witnesses, as computed facts *)
 Example c16_witness_discover_lists_supplemental_rows :
